@@ -403,13 +403,14 @@ def _api_interleaved_readers(src, dest):
             treeoutput.export(t, f, boyd_split_numbering=True)
 
 
-EMPTY_SENTENCE_OP = 5        # plain export -> export conversion also gets a sentence without tokens
+EMPTY_SENTENCE_OP = 6        # plain export -> export conversion also gets a sentence without tokens
 CONCAT_OPS = [
     ('export-gzcat', ['transform', '{src}', '{dest}'], 'export', 'dest'),
     ('discobrackets', ['transform', '{src}', '{dest}', '--src-format', 'discobrackets', '--dest-format', 'tigerxml',
                        '--src-opts', 'disco_reordered'], 'tigerxml-noid', 'dest'),
     ('discobrackets', ['transform', '{src}', '{dest}', '--src-format', 'discobrackets', '--dest-format', 'discobrackets',
                        '--src-opts', 'disco_reordered'], 'discobrackets', 'dest'),       # the writer shows absolute token positions
+    ('tigerxml0', ['transform', '{src}', '{dest}', '--src-format', 'tigerxml'], 'export', 'dest'),     # sentence ids from 0
     ('export', _api_list_then_transform, 'export', 'dest'),
     ('export', _api_interleaved_readers, 'export', 'dest'),
     ('export', ['transform', '{src}', '{dest}'], 'export', 'dest'),
@@ -469,6 +470,9 @@ def _run_concat(cli, wd, fmt, argv, mts, out_name):
     elif fmt == 'discobrackets':
         with open(src, 'w', encoding='utf-8') as f:
             f.write(codecs.encode_discobrackets(mts))
+    elif fmt == 'tigerxml0':
+        with open(src, 'w', encoding='utf-8') as f:
+            f.write(codecs.encode_tigerxml([model.MT(m.sid - 1, m.toks, m.root) for m in mts]))
     else:
       with open(src, 'w', encoding='utf-8') as f:
         if fmt == 'export':
@@ -532,7 +536,7 @@ def check_concat(op_i, ia, ib):
     P = cont_pool if fmt == 'brackets' else disc_pool
     A = [('EMPTY', k + 1) if m is None else model.MT(k + 1, m.toks, m.root) for k, m in enumerate(P[ia])]
     B = [('EMPTY', len(A) + k + 1) if m is None else model.MT(len(A) + k + 1, m.toks, m.root) for k, m in enumerate(P[ib])]
-    Bsolo = B if fmt.startswith('export') else [('EMPTY', k + 1) if m is None else model.MT(k + 1, m.toks, m.root) for k, m in enumerate(P[ib])]
+    Bsolo = B if (fmt.startswith('export') or fmt == 'tigerxml0') else [('EMPTY', k + 1) if m is None else model.MT(k + 1, m.toks, m.root) for k, m in enumerate(P[ib])]
     if any(isinstance(m, tuple) for m in A + B) and op_i != EMPTY_SENTENCE_OP:
         return []
     wd = os.path.join(scratch(), 'c18c')
